@@ -762,6 +762,18 @@ func init() {
 		n := 12000 * x.scale
 		ratioCases(false, func(s, t []byte) { x.recaseInvariant(s, t) })
 		x.specialPairs(func(s, t []byte) { x.recaseInvariant(s, t) })
+		// wide tails: a first code point of every width followed by Kelvin signs / long s, the haystack spelling them
+		// narrowly, the match at the very end of the haystack (brute-force bounds) and far inside a long one
+		for _, f := range []string{"1", "a", "\u00e9", "\u023a", "\u4e16", "\U00010400", "\U0001F600"} {
+			for _, w := range [][2]string{{"\u212a", "k"}, {"\u017f", "s"}} {
+				for j := 1; j <= 5; j++ {
+					nd := []byte(f + strings.Repeat(w[0], j))
+					for _, hs := range []string{f + strings.Repeat(w[1], j), "x" + f + strings.Repeat(w[1], j), "xxxxxxxxxxxxxxxxxxxx" + f + strings.Repeat(w[1], j), f + strings.Repeat(w[1], j) + "x"} {
+						x.recaseInvariant([]byte(hs), nd)
+					}
+				}
+			}
+		}
 		for i := 0; i < n; i++ {
 			s, t := x.g.pair(streamValid)
 			x.recaseInvariant(s, t)
@@ -843,6 +855,25 @@ func init() {
 		x.exhaustiveSelf([]string{"a", "K", "\xff", "�", "世", "ſ", "k"}, 3, 2)
 	}
 	props["C19"] = func(x *Ctx) {
+		// the context x is a member of the orbit of s's first code point (every orbit with three or more members):
+		// a search that steps over "the same letter again" must not step over the start of the match
+		for r := rune(0x80); r <= 0x1FFFF; r++ {
+			if orbitMin(r) != r {
+				continue
+			}
+			o := orbitOf(r)
+			if len(o) < 3 {
+				continue
+			}
+			for _, m1 := range o {
+				for _, m2 := range o {
+					for _, m3 := range o {
+						x.embedding([]byte(string(m1)), []byte(string(m2)+"x"), nil, []byte(string(m3)+"x"))
+						x.embedding([]byte(string(m1)), []byte(string(m2)+"x"), []byte("0123456789abcdef"), []byte(string(m3)+"x"))
+					}
+				}
+			}
+		}
 		n := 15000 * x.scale
 		k := 0
 		ratioCases(false, func(s, t []byte) {
